@@ -20,3 +20,18 @@ func init() {
 		return []value(nil)
 	})
 }
+
+func init() {
+	// ABCILog renders the error as JSON through json.Encoder (reflection); log text is not the subject
+	regSimple("(*github.com/pokt-network/pocket-core/types.sdkError).ABCILog", func(fr *frame, args []value) value {
+		p, ok := args[0].(*value)
+		if !ok || p == nil {
+			return "{}"
+		}
+		st, ok := (*p).(structure)
+		if !ok || len(st) < 2 {
+			return "{}"
+		}
+		return fmt.Sprintf(`{"codespace":"%v","code":%v}`, st[0], st[1])
+	})
+}
